@@ -30,6 +30,22 @@ def gen_cases(ctx):
         outs = "".join(ctx.rng.choices("OEP", weights=w, k=L))
         cases.append({"id": cid, "threshold": th, "recover_ns": ctx.rng.choice([1, HOUR]),
                       "mock": ctx.rng.random() < 0.5, "outs": outs})
+    # recovery times near the top of the int64 range ("never"): arithmetic on the deadline must not wrap
+    for rec in (2**63 - 1, 2**62, (2**63 - 1) // 2 + 1):
+        for th in (0, 1, 3):
+            for outs in ("E" * (th + 1) + "OOEO", "P" * (th + 2) + "O", "EO" + "E" * (th + 1) + "OPO"):
+                cid += 1
+                cases.append({"id": cid, "threshold": th, "recover_ns": rec, "mock": cid % 2 == 0, "outs": outs})
+    # probes inside the open window must not postpone recovery: trip, probe at 0.6 x recover (rejected),
+    # probe at 1.2 x recover after the LAST REAL failure (forwarded), and again after a failing trial call
+    for th in (0, 1, 2):
+        for tail in ("OO", "EOO", "PEO"):
+            trip = "E" * (th + 1)
+            outs = trip + "".join(x + x for x in tail)        # each tail outcome is scheduled twice: in-window probe, trial
+            gaps = [0] * len(trip) + [70000] * (2 * len(tail))
+            cid += 1
+            cases.append({"id": cid, "threshold": th, "recover_ns": 120 * 10**6, "mock": th == 1,
+                          "outs": outs, "gaps_us": gaps, "family": "probe-in-window"})
     n_timed = 12 if quick else 150
     for _ in range(n_timed):
         cid += 1
@@ -57,6 +73,7 @@ def property_oracle(case, calls):
     not depend on the exact clock: recover = 1 ns means 'always elapsed', 1 h 'never')."""
     th, rec = case["threshold"], case["recover_ns"]
     consecutive = 0
+    lastfail = None
     for k, o in enumerate(case["outs"]):
         r, inv = calls[k]["r"], calls[k]["inv"]
         if r in "BM":
@@ -74,14 +91,28 @@ def property_oracle(case, calls):
         if rec == 1:
             if r in "BM":
                 return "call %d rejected although the recovery time (1ns) had elapsed" % k
-        elif rec == HOUR:
+        elif rec >= HOUR:
             should_open = consecutive > th
             if should_open and r not in "BM":
                 return "call %d forwarded after %d consecutive failures (threshold %d) within the recovery time" % (k, consecutive, th)
             if not should_open and r in "BM":
                 return "call %d rejected after only %d consecutive failures (threshold %d)" % (k, consecutive, th)
+        else:
+            # finite recovery time: decided only where the observed clock windows leave no doubt
+            if consecutive > th and lastfail is not None:
+                lo = calls[k]["b"] - lastfail[1]      # least time elapsed since the last real failure
+                hi = calls[k]["a"] - lastfail[0]      # most
+                if lo > rec and r in "BM":
+                    return "call %d rejected although more than the recovery time (%d ns) had passed since the last failure of a forwarded call" % (k, rec)
+                if hi < rec and r not in "BM":
+                    return "call %d forwarded after %d consecutive failures (threshold %d) within the recovery time" % (k, consecutive, th)
+            if consecutive <= th and r in "BM":
+                return "call %d rejected after only %d consecutive failures (threshold %d)" % (k, consecutive, th)
+        if r in "OEP" and consecutive > th:
+            consecutive = th >> 1                     # trial call of the half-open state: the count restarts at half the threshold
         if r in "EP":
             consecutive += 1
+            lastfail = (calls[k]["b"], calls[k]["a"])
         elif r == "O":
             consecutive = 0
     return None
